@@ -697,24 +697,44 @@ def ext_method(it, ref, h, name, args, kwargs):
         if isinstance(h.fields.get("calls"), VRef):
             calls = it.ctx.deref(h.fields["calls"])
             calls.items.append((name, tuple(args)))
+        if spec.get("raise_before_effects"):
+            for exc in spec.get("raises", []):
+                if it.ctx.choose(f"{h.cls[4:]}.{name} raises {exc}"):
+                    raise PyRaise(exc)
         cm = it.engine.contract_module(it.engine.current)
-        efr = Frame(cm, {"self": ref, "args": tuple(args), "kwargs": kwargs})
+        efr = Frame(cm, dict(it.ctx.ghost))
+        efr.locals.update({"self": ref, "args": tuple(args), "kwargs": kwargs})
+        pre_fields_frame = {"pre": VRec("pre", dict(h.fields))}
         new_vals = {f: it.eval(it.engine.parse_clause(e), efr) for f, e in spec.get("effects", {}).items()}
         for f, v in new_vals.items():
             h.fields[f] = v
         # the call was made (effects recorded) whether or not it then fails
-        for exc in spec.get("raises", []):
+        for exc in ([] if spec.get("raise_before_effects") else spec.get("raises", [])):
             if it.ctx.choose(f"{h.cls[4:]}.{name} raises {exc}"):
                 raise PyRaise(exc)
         rs = spec.get("returns")
         if rs is None:
             res = None
         elif isinstance(rs, str):
-            res = it.eval(it.engine.parse_clause(rs), efr)
+            # expression over `self` (after the effects), `pre` (fields before), `args`, and `fresh`
+            rfr = Frame(cm, dict(efr.locals))
+            rfr.locals.update(pre_fields_frame)
+            if spec.get("fresh") is not None:
+                rfr.locals["fresh"] = it.engine.make_sym(it.ctx, spec["fresh"], fresh_name(name + "_fresh"))
+            res = it.eval(it.engine.parse_clause(rs), rfr)
         else:
             res = it.engine.make_sym(it.ctx, rs, fresh_name(name))
+            if spec.get("where"):
+                # the fresh result is constrained relative to the object's state BEFORE the effects
+                wfr = Frame(cm, dict(efr.locals))
+                wfr.locals.update(pre_fields_frame)
+                wfr.locals["result"] = res
+                g = it.truth(it.eval(it.engine.parse_clause(spec["where"]), wfr))
+                it.ctx.assume(zbool(g) if not isinstance(g, bool) else g)
         if isinstance(h.fields.get("results"), VRef):
             it.ctx.deref(h.fields["results"]).items.append(res)
+        if "last_result" in h.fields:
+            h.fields["last_result"] = res
         return res
     if spec.get("is_async"):
         return Coro(run, label=f"{h.cls[4:]}.{name}", scripted=True)
